@@ -79,6 +79,14 @@ func (v *verdict) condList() []string   { return sortedKeys(v.conds) }
 func (v *verdict) detailList() []string { return sortedKeys(v.detail) }
 func (v *verdict) sig() string          { return strings.Join(v.detailList(), "+") }
 
+// nearMiss labels a candidate that violates exactly one condition.
+func (v *verdict) nearMiss() string {
+	if d := v.detailList(); len(d) == 1 {
+		return d[0]
+	}
+	return v.condList()[0] + ":several"
+}
+
 // wellFormed lists what keeps an allocation from being well-formed for a
 // channel with n participants: one row per asset, one balance per participant
 // in every row, locked entries with one amount per asset, nothing negative, not
